@@ -322,6 +322,10 @@ def _get_cvar_weights_from_percentile(
     # nan values are sorted to the end, drop them:
     indices = indices[: np.count_nonzero(~failed_realizations)]
 
+    # Without successful realizations all weights are zero:
+    if indices.size == 0:
+        return np.zeros(values.size)
+
     p_max = 1.0 / indices.size
     n_var = int(percentile * indices.size)
     # Rounding may produce a tiny negative remainder:
